@@ -12,31 +12,52 @@ SOURCES = ["src/allmydata/immutable/checker.py", "src/allmydata/immutable/repair
            "src/allmydata/immutable/upload.py", "src/allmydata/check_results.py", "src/allmydata/immutable/layout.py"]
 DESIGN_REF = "DESIGN.md §2 C45"
 TECHNIQUE = ("Lean 4 proofs over an executable model of the verifier (ValidatedExtendedURIProxy, ValidatedReadBucketProxy, "
-             "Checker._download_and_verify with its error classification), of _format_results and of the storage behaviour repair "
-             "relies on, reusing the hash-tree soundness of C35 and the download theorems of C02; correspondence: per-share verdicts "
-             "of real check(verify=True) runs vs the model run on the same share bytes (real SHA-256d), crafted UEBs vs "
-             "_parse_and_validate, random result lists vs _format_results; monitor on the in-process grid: shares deleted / "
-             "corrupted per field / consistently forged, check with and without verify, check_and_repair (also through a verify-cap "
-             "node), read from the repaired shares only, byte-identity of pre-existing good shares")
-LEVEL_TEXT = ("Proved: with the repaired verifier a share reported good carries the published UEB and exactly the uploader's blocks, "
-              "for arbitrary server answers; healthy iff N distinct good share numbers, recoverable iff at least k (as written in "
-              "_format_results); a repair whose read completes re-publishes exactly the original publication (cap, UEB, trees, all "
-              "blocks); existing shares are reported alreadygot, get no writer and keep their bytes (abstract storage spec). "
-              "Negation witness: the verifier as it is accepts a share whose blocks and block hash tree were forged consistently "
-              "(verified_good_counterexample); repaired by fixes/C45-verify-block-root.diff.")
+             "Checker._download_and_verify with its error classification), of the check without verification "
+             "(_check_server_shares), of _format_results, of CiphertextFileNode._maybe_repair / _gather_repair_results, of the "
+             "Repairer's encoding parameters and of the storage behaviour repair relies on, reusing the hash-tree soundness of C35 "
+             "and the download theorems of C02. Correspondence (real SHA-256d, real UEB parser): per-share verdicts of real "
+             "check(verify=True) runs vs the model on the same share bytes; crafted UEBs vs _parse_and_validate; random result lists "
+             "vs _format_results (summary and corrupt / incompatible lists); claiming / failing servers vs _check_server_shares; the "
+             "recorded repair decision, repairer encoding parameters and post-repair merge vs the model. Monitor on the in-process "
+             "grid: a fixed corpus (one plan per repaired defect and per seeded change, VERIF_CORPUS_ONLY=1 runs only it), then shares "
+             "deleted / corrupted per field / consistently forged on grids with one or several shares per server, check with and "
+             "without verify, check_and_repair (also through a verify-cap node), post-repair results vs a fresh verify by a second "
+             "client, read from the repaired shares only, byte-identity of pre-existing shares")
+LEVEL_TEXT = ("Proved (11 theorems): verified_good_implies_all_valid (a share the verifier reports good carries the published UEB, "
+              "exactly the uploader's blocks and only published hash-tree nodes, for arbitrary server answers; each share read with "
+              "its own trees); healthy_iff_N_good, recoverable_iff_k_good, corrupt_shares_listed (the arithmetic and lists of "
+              "_format_results); noverify_believes_servers (verify=False counts exactly the claimed share numbers); "
+              "recoverable_unhealthy_repair_attempted (the repair decision depends on distinct good share numbers, not hosts); "
+              "repair_uses_original_parameters + repair_regenerates_identical_shares (k, N from the cap, segment size from the "
+              "validated UEB; a completed repair read re-publishes exactly the original cap, UEB, trees and blocks); "
+              "post_repair_healthy_implies_N_good; repair_never_alters_good_shares (abstract storage spec). "
+              "verified_good_counterexample keeps the negation witness for the verifier as it was before the fix (a share with "
+              "consistently forged blocks + block hash tree was reported good). Monitor only: that the file can be read from the "
+              "repaired shares alone (needs the completeness direction: C35 complete, C36, C03).")
 LEVEL_NOTE = ("Lean kernel + standard axioms; hash collision-freeness and the UEB round trip are hypotheses; upload placement, "
               "happiness and the storage server are C06/C07/C22; the download-then-upload plumbing of the Repairer is exercised "
-              "on the grid, not verified.")
-RULE = ("one case = one uploaded file (k/N/segment sizes incl. multi-segment, N >= 2k for the read-from-repaired-shares cases) with "
+              "on the grid, not verified. The defect found here (the verifier never compared the block hash tree root with the "
+              "share hash tree) is repaired in /repo (fb3513d); the model's VCfg.asIs / verified_good_counterexample and the corpus "
+              "case document it.")
+RULE = ("fixed corpus first (independent of the seed): consistently forged blocks; a damaged crypttext hash tree on one-segment and "
+        "multi-segment files under three delivery orders; repair of multi-segment files shorter than the default segment size; "
+        "shares corrupt in place followed by check_and_repair(verify=True); >= k good shares left on fewer than k servers. Then one "
+        "case = one uploaded file (k/N/segment sizes incl. multi-segment, N >= 2k for the read-from-repaired-shares cases; one "
+        "share per server, or several shares per server on 1-3 servers) with "
         "every share independently kept / deleted / corrupted in one named field / truncated / forged consistently, then "
         "check(verify=False), check(verify=True) and check_and_repair (incl. a family with 1-2 shares corrupted in place at a named site "
         "plus deletions, verify=True), whose post-repair results are compared field by field with a fresh check(verify=True) by a "
         "second client; distinct = distinct (file, per-share plan, seed); "
-        "non-trivial = at least one share deleted or altered.")
+        "non-trivial = at least one share deleted or altered. Function-level cases: crafted UEBs, random per-server result lists, "
+        "servers claiming arbitrary share numbers or failing.")
 TRUSTED = ["harness/grid.py", "the reference validity test of the monitor (layout-directed comparison of every stored item with "
-           "the uploaded share: harness/props/c45.py items())"]
+           "the uploaded share: harness/props/c45.py items())",
+           "observation-only hooks on CiphertextFileNode._gather_repair_results and Repairer.get_all_encoding_parameters"]
 ASSUMPTIONS = ["SHA-256d collision-freeness / pair-hash injectivity / non-empty hashes (hypotheses)",
+               "uri.unpack_extension(pack_extension(d)) returns the published fields (Setup.ser_ok; C38)",
                "storage server semantics of allocate_buckets / close as in the abstract Store (C22)",
+               "the upload results' sharemap lists only shares the upload wrote (hypothesis of post_repair_healthy_implies_N_good; "
+               "checked by the post-repair vs fresh-verify monitor)",
                "the uploader is deterministic in (ciphertext, k, N, segment size): regenerated shares are compared byte for byte"]
 
 
